@@ -1,6 +1,7 @@
 """C11 - multivariate DTW == DTW with vector point distances, both engines."""
 import itertools
 
+from . import c04
 from .. import build, core, oracles, univ
 from ..core import inf
 
@@ -67,7 +68,8 @@ def check_case(acc, E, case, full):
         judge('dtw.distance(flattened)', 'py', core.call(E.dtw.distance, f1, f2, **kw))
     if not full:
         return exp
-    # accumulated cost matrix: returned distance and shape (cell-wise content is C04)
+    # accumulated cost matrix: returned distance, shape and every cell
+    ref4 = None
     for eng, f in (('py', E.dtw_ndim.warping_paths), ('c', E.dtw_ndim.warping_paths_fast)):
         res = core.call(f, a1, a2, **kw)
         if isinstance(res, core.Exc):
@@ -77,6 +79,14 @@ def check_case(acc, E, case, full):
         judge('dtw_ndim.warping_paths', eng, d)
         if tuple(M.shape) != (r + 1, c + 1):
             acc.violation('shape', 'dtw_ndim.warping_paths', eng, tags_of(case, 'wps_shape'), case, [r + 1, c + 1], list(M.shape))
+        elif not case.get('use_pruning'):
+            # cell-wise content with the vector point distance (same judge as C04: band, psi marks, max_dist freedom)
+            if ref4 is None:
+                P4 = oracles.pd_matrix(case['s1'], case['s2'], I.pd)
+                psi4 = oracles.norm_psi(kw.get('psi'))
+                ref4 = (oracles.cells(P4, r, c, case.get('window'), I.ival(case['penalty']) if case.get('penalty') else 0.0, psi4,
+                                      I.ival(case['max_step']) if case.get('max_step') else inf), psi4)
+            c04.judge(acc, case, 'dtw_ndim.warping_paths', eng, d, M.tolist(), 0, 0, I, ref4[0], ref4[1], inf)
     if case.get('use_pruning'):
         return exp
     # best path: valid and achieves the distance
@@ -209,7 +219,7 @@ def run(ctx):
     acc = core.run_sharded(worker, extra=(ctx.tier, ctx.seed))
     return core.finish(
         PROP, ctx.tier, ctx.seed, acc,
-        rule='all pairs of series of d-vectors over a 2-letter alphabet x settings cross; distance, warping_paths (value, shape), warping_path (validity, cost) '
+        rule='all pairs of series of d-vectors over a 2-letter alphabet x settings cross; distance, warping_paths (value, shape, every in-band cell against the reference table with the vector point distance), warping_path (validity, cost) '
              'in both engines vs path-definition reference with vector point distance; d=1 also vs the univariate routine; distance_matrix over 3-collections '
              'in list-of-2D and 3-D containers; non-trivial = d > 1 and some point has unequal components',
         bounds={'alphabet': list(univ.alphabet(univ.BASE2, ctx.seed)), 'ndim': '1..%d' % (4 if ctx.thorough else 3),
